@@ -560,7 +560,7 @@ def parseDecls (F : Codec K) : Nat → List String → List (Decl K) → Option 
   | _, [], _ => none
   | fuel+1, tok :: rest, acc =>
     if tok == ":" then some (acc.reverse, rest) else
-    if tok == "TV" then
+    if tok == "TV" || tok == "TW" then
       match rest with
       | ws :: rest' => do
         let w ← ws.toNat?
@@ -568,7 +568,7 @@ def parseDecls (F : Codec K) : Nat → List String → List (Decl K) → Option 
         let b ← ds[w]?
         -- a view of a 2x2 FieldMatrix, a DynamicMatrix, a DiagonalMatrix or a scalar matrix view
         if !(b.kind == .dm || b.kind == .dg || b.kind == .sv || (b.kind == .fm && b.init.rows == 2)) then none
-        parseDecls F fuel rest' (⟨.tv, zeroMat 0 0, w⟩ :: acc)
+        parseDecls F fuel rest' (⟨.tv, zeroMat 0 0, w, tok == "TW"⟩ :: acc)
       | _ => none
     else do
       let k ← rkind? tok
@@ -579,7 +579,7 @@ def parseDecls (F : Codec K) : Nat → List String → List (Decl K) → Option 
           if !declShapeOk k 1 n then none
           let e ← decList F l
           if e.length != n then none
-          parseDecls F fuel rest' (⟨k, (Mat.freeze ⟨1, n, fun _ j => e.getD j 0⟩), acc.length⟩ :: acc)
+          parseDecls F fuel rest' (⟨k, (Mat.freeze ⟨1, n, fun _ j => e.getD j 0⟩), acc.length, false⟩ :: acc)
         | _ => none
       else
         match rest with
@@ -590,10 +590,10 @@ def parseDecls (F : Codec K) : Nat → List String → List (Decl K) → Option 
           let e ← decList F l
           if k == .dg then
             if e.length != r then none
-            parseDecls F fuel rest' (⟨k, (Mat.freeze ⟨1, r, fun _ j => e.getD j 0⟩), acc.length⟩ :: acc)
+            parseDecls F fuel rest' (⟨k, (Mat.freeze ⟨1, r, fun _ j => e.getD j 0⟩), acc.length, false⟩ :: acc)
           else
             if e.length != r * c then none
-            parseDecls F fuel rest' (⟨k, (Mat.freeze ⟨r, c, fun i j => e.getD (i * c + j) 0⟩), acc.length⟩ :: acc)
+            parseDecls F fuel rest' (⟨k, (Mat.freeze ⟨r, c, fun i j => e.getD (i * c + j) 0⟩), acc.length, false⟩ :: acc)
         | _ => none
 
 def parseSeqOp (F : Codec K) (toks : List String) : Option (SOp K) :=
@@ -609,6 +609,8 @@ def parseSeqOp (F : Codec K) (toks : List String) : Option (SOp K) :=
     | "scale" => do some (.scale (← a.toNat?) (← parseScalar F [b]).1)
     | _ => none
   | ["axpy", t, k, s] => do some (.axpy (← t.toNat?) (← parseScalar F [k]).1 (← s.toNat?))
+  | ["rasg", t, i, s, j] => do some (.rasg (← t.toNat?) (← i.toNat?) (← s.toNat?) (← j.toNat?))
+  | ["raxpy", t, i, k, s, j] => do some (.raxpy (← t.toNat?) (← i.toNat?) (← parseScalar F [k]).1 (← s.toNat?) (← j.toNat?))
   | [name, a, al, x, y] => do some (.kern (← kname? name) (← a.toNat?) (← parseScalar F [al]).1 (← x.toNat?) (← y.toNat?))
   | _ => none
 
